@@ -529,6 +529,14 @@ func runPerm(t *testing.T, sched simrt.Schedule, prog permProg) ([]Violation, Ru
 						dv[i].Key = "store-fault-partial-effect " + cause
 					}
 				}
+			} else {
+				// a divergence that shows on a topic on which a handler was interrupted earlier (e.g. the owner field
+				// after a half-done transfer that a later request completes in the cache only)
+				for i := range dv {
+					if m2 := divTopicUser.FindStringSubmatch(dv[i].Text); m2 != nil && len(faultTaint[m2[1]]) > 0 && dv[i].Property == "C08" {
+						dv[i].Key = taintKey(m2[1])
+					}
+				}
 			}
 			out = append(out, dv...)
 			simStore.Fault = nil
